@@ -193,7 +193,7 @@ func c17Steps(m c17Model, gen func(string) string) []c17Step {
 			st = append(st, c17Step{Kind: "nick-refused-then-ok", A: x, B: g})
 		}
 	}
-	for _, y := range c17Uniq([]string{"kim", m.Prev, c17Prefix(m.Cur), m.Cur, c17Case(m.Cur)}) {
+	for _, y := range c17Uniq([]string{"kim", m.Prev, c17Prefix(m.Cur), m.Cur, c17Case(m.Cur), "42XAAAAAB"}) {
 		st = append(st, c17Step{Kind: "forced", A: y})
 	}
 	// other users: names equal to / prefixes of / one character from the
@@ -570,7 +570,7 @@ func c17DefaultGenJob() Job {
 			defer func() { panicked = recover() }()
 			return client.DefaultNewNick(in), nil
 		}
-		for _, prefix := range []string{"", "ab", strings.Repeat("a", 30), "guest1", "x9", "99", "a}", "Z~"} {
+		for _, prefix := range []string{"", "ab", strings.Repeat("a", 30), "guest1", "x9", "99", "a}", "Z~", "Ren\xe9", "\xff\xfe", "h\u00e9l\u00e8ne", "\x80"} {
 			for b := 0; b < 256; b++ {
 				in := prefix + string([]byte{byte(b)})
 				e.Case(in)
@@ -596,7 +596,7 @@ func c17DefaultGenJob() Job {
 		if _, p := call(""); p != nil {
 			e.Fail("default-generator", "newnick-panic", Q(""), fmt.Sprintf("DefaultNewNick(\"\") panicked: %v", p), nil)
 		}
-		e.R.Bounds = append(e.R.Bounds, "all 256 values of the last byte x 8 prefixes (empty, letters, 30 bytes, ending in a digit / 9 / } / ~); plus the empty nick (no panic only)")
+		e.R.Bounds = append(e.R.Bounds, "all 256 values of the last byte x 12 prefixes (empty, letters, 30 bytes, ending in a digit / 9 / } / ~, with Latin-1 / invalid UTF-8 / multi-byte characters before the last byte); plus the empty nick (no panic only)")
 		return e.Done()
 	}}
 }
@@ -730,7 +730,7 @@ func c17VariantsJob() Job {
 func init() {
 	Register(&Prop{
 		ID:   "C17",
-		Rule: "the MODEL (server's view: phase, current and previous nick, outstanding request, collisions so far) is walked breadth-first over the alphabet {433 for the requested nick / for another nick, 001 to the requested / another nick, client Nick(x) confirmed / refused / refused and the follow-up confirmed, forced NICK, other users' NICK between names equal to, prefixes of and one character from the client's current and previous nick; new nicks include the current one with the case of its first letter flipped}, keeping the shortest script P (shorter than the tier's length: quick 4, thorough 6; at most 3 collisions before the welcome) per distinct model state; for every such state the real client is run, from a fresh connect each time, on P+c for every view-changing symbol c, on P followed by all view-preserving symbols in a row (judged after each), and on P + that row + c; x tracking on/off x generator {default, s+\"^\", constant \"zed\"; s+\"^\" installed through Config() after Client() returned} x nick {bob, w9} x (tracked only) Me() read at every step / only after the last step. One case = one judged (configuration, script); failures are minimised by dropping view-preserving steps. Family default-generator: DefaultNewNick on all 256 last bytes x 3 prefixes",
+		Rule: "the MODEL (server's view: phase, current and previous nick, outstanding request, collisions so far) is walked breadth-first over the alphabet {433 for the requested nick / for another nick, 001 to the requested / another nick, client Nick(x) confirmed / refused / refused and the follow-up confirmed, forced NICK, other users' NICK between names equal to, prefixes of and one character from the client's current and previous nick; new nicks include the current one with the case of its first letter flipped}, keeping the shortest script P (shorter than the tier's length: quick 4, thorough 6; at most 3 collisions before the welcome) per distinct model state; for every such state the real client is run, from a fresh connect each time, on P+c for every view-changing symbol c, on P followed by all view-preserving symbols in a row (judged after each), and on P + that row + c; x tracking on/off x generator {default, s+\"^\", constant \"zed\"; s+\"^\" installed through Config() after Client() returned} x nick {bob, w9} x (tracked only) Me() read at every step / only after the last step. One case = one judged (configuration, script); failures are minimised by dropping view-preserving steps. Family default-generator: DefaultNewNick on all 256 last bytes x 12 prefixes (ASCII, Latin-1 / invalid UTF-8 / multi-byte)",
 		Assumptions: []string{
 			"a 433 naming a nick the client does not hold leaves the server's view unchanged; the NICK the client sends in answer stays outstanding (the script may later address the welcome to it)",
 			"'character' in 'differs only in its last character' is a byte (IRC nicks are byte strings); DefaultNewNick(\"\") is only required not to panic",
